@@ -21,7 +21,7 @@ EXPLANATION = (
     'equality. Deductive: (i) the communication schedules of the real _allgather_matmul_twoway / _matmul_reducescatter_twoway / '
     '_parallel_dot_cumsum are executed, for every even axis size 2..16 and every device index, in an SPMD reference interpreter '
     'over symbolic chunk labels (exact, complete over data for each axis size): every device accumulates each (lhs chunk, rhs '
-    'shard) pair exactly once / the global prefix sum; (ii) pyvc VCs for all sizes: _round_to_multiple, vertical pad/crop '
+    'shard) pair exactly once / the global prefix sum; (ii) pyvc VCs for all sizes: the sharded longitude derivative (the real `differentiate` closure on shard s of any x-size equals the unsharded derivative restricted to the shard), vertical pad/crop '
     '(crop(pad(x)) == x, padding at the end, multiple of z), Fast modal/nodal shapes. Bounded: on 8 virtual CPU devices, for the '
     'listed (z,x,y) meshes and level counts not divisible by z: transforms and every linear Grid operator as matrices on the '
     'complete basis, cumsum/reverse_cumsum, sharded_einsum patterns x gather/scatter x argument order, filters, implicit '
@@ -361,7 +361,8 @@ def clauses(tier, seed):
            'dinosaur.filtering.exponential_filter', 'dinosaur.filtering.horizontal_diffusion_filter',
            'dinosaur.time_integration.horizontal_diffusion_step_filter', 'dinosaur.time_integration.imex_rk_sil3',
            'dinosaur.coordinate_systems._with_sharding_constraint']
-  return S.clauses(tier) + [
+  from contracts import fourier_contracts
+  return S.clauses(tier) + [c for c in fourier_contracts.clauses() if 'sharded longitude derivative' in c.name] + [
       Clause('numeric:8-device transforms and linear Grid operators on complete bases == unsharded', 'numeric', fns_t, run_transforms,
              replay=rerun_replay(run_transforms), group='jax-a', heavy=True),
       Clause('numeric:8-device cumsum / reverse_cumsum / sharded_einsum == global result', 'numeric', fns_c, run_cumsum_einsum,
